@@ -26,6 +26,8 @@ fn c05_optimised_and_plain_engines_agree() {
         "@@/banners/ok-but-this-exception-pattern-is-much-longer-than-the-urls", "@@/banners/ok",
         "/csp1$csp=script-src 'none'", "/csp1$csp=worker-src 'none'",
         "|https://a.io/xa|", "|https://a.io/xb|", "|https://a.io/xc|",
+        // exact-URL rules of equal length that differ in a one-letter token only (they share their bucket)
+        "|https://example.com/ads/a.js|", "|https://example.com/ads/b.js|", "|https://example.com/ads/c.js|",
     ];
     let plain = engine(&rules, false);
     let optimised = engine(&rules, true);
@@ -35,6 +37,7 @@ fn c05_optimised_and_plain_engines_agree() {
         "https://a.io/s", "https://a.io/sx", "https://b.io/t.gif", "https://b.io/t.gifx", "https://a.io/h", "https://a.io/hx", "https://b.io/h",
         "https://b.io/sep/s/", "https://b.io/sep/s", "https://b.io/wild/1/w", "https://b.io/wild/w", "https://b.io/csp1",
         "https://a.io/xa", "https://a.io/xb", "https://a.io/xc", "https://a.io/xd",
+        "https://example.com/ads/a.js", "https://example.com/ads/b.js", "https://example.com/ads/c.js", "https://example.com/ads/d.js", "https://example.com/ads/a.js?x",
     ] {
         for t in ["image", "script", "document"] {
             let req = Request::new(url, "https://news.example/", t).unwrap();
@@ -59,12 +62,14 @@ fn c05_explicit_optimize_keeps_verdicts() {
     use adblock::blocker::{Blocker, BlockerOptions};
     use adblock::resources::ResourceStorage;
     let rules = ["/banners/a", "/banners/b", "@@/banners/ok1", "@@/banners/ok2", "||x.test^$removeparam=utm_a", "||x.test^$removeparam=utm_b", "||x.test^$removeparam=utm_c",
+                 "/campaign/click?$removeparam=cid", "/campaign/click?$removeparam=sid", "$removeparam=example1_", "$removeparam=example1-",
                  "/csp2$csp=script-src 'none'", "/csp2$csp=worker-src 'none'", "||r.test^$redirect-rule=a.js", "||r.test^$redirect-rule=b.js:5"];
     let (filters, _) = adblock::lists::parse_filters(&rules, true, ParseOptions::default());
     let mut blocker = Blocker::new(filters, &BlockerOptions { enable_optimizations: false });
     let resources = ResourceStorage::default();
     let reqs: Vec<Request> = ["https://a.io/banners/a", "https://a.io/banners/b", "https://a.io/banners/ok1", "https://a.io/banners/ok2/banners/a",
-                              "https://x.test/p?utm_a=1&utm_b=2&utm_c=3&keep=4", "https://x.test/p?utm_c=3", "https://b.io/csp2", "https://r.test/a"]
+                              "https://x.test/p?utm_a=1&utm_b=2&utm_c=3&keep=4", "https://x.test/p?utm_c=3", "https://b.io/csp2", "https://r.test/a",
+                              "https://shop.example/campaign/click?cid=1&sid=2&keep=3", "https://example.com?example1_=1&example1-=2"]
         .iter().flat_map(|u| ["script", "document"].into_iter().map(move |t| Request::new(u, "https://news.example/", t).unwrap())).collect();
     let obs = |b: &Blocker| -> Vec<String> {
         reqs.iter().map(|r| { let v = b.check(r, &resources);
